@@ -386,3 +386,46 @@ theorem phase1_foldl_db_dry (strict : Bool) (p : Params) (hd : p.dryRun = true) 
     simp [phase1Step, phase1Part_dry strict p hd part]
 
 end Logrange.Truncate
+
+namespace Logrange.Truncate
+
+/-! ### the chunk's time hull covers every write notification (two independent `if`s in `chkInfo.update`) -/
+
+theorem hullUpdate_covers (h r : Hull) :
+    (hullUpdate true h r).minTs ≤ h.minTs ∧ h.maxTs ≤ (hullUpdate true h r).maxTs ∧
+    (hullUpdate true h r).minTs ≤ r.minTs ∧ r.maxTs ≤ (hullUpdate true h r).maxTs := by
+  unfold hullUpdate
+  simp only [if_true]
+  by_cases h1 : h.minTs > r.minTs <;> by_cases h2 : h.maxTs < r.maxTs <;> simp [h1, h2] <;> omega
+
+theorem foldl_hull_covers : ∀ (rs : List Hull) (h : Hull),
+    (rs.foldl (hullUpdate true) h).minTs ≤ h.minTs ∧ h.maxTs ≤ (rs.foldl (hullUpdate true) h).maxTs ∧
+    ∀ r ∈ rs, (rs.foldl (hullUpdate true) h).minTs ≤ r.minTs ∧ r.maxTs ≤ (rs.foldl (hullUpdate true) h).maxTs := by
+  intro rs
+  induction rs with
+  | nil => intro h; simp
+  | cons r rest ih =>
+    intro h
+    simp only [List.foldl_cons]
+    obtain ⟨a1, a2, a3⟩ := ih (hullUpdate true h r)
+    obtain ⟨b1, b2, b3, b4⟩ := hullUpdate_covers h r
+    refine ⟨by omega, by omega, ?_⟩
+    intro x hx
+    rcases List.mem_cons.mp hx with rfl | hx
+    · exact ⟨by omega, by omega⟩
+    · exact a3 x hx
+
+theorem chunkHull_covers (rs : List Hull) (h : Hull) (hh : chunkHull true rs = some h) :
+    ∀ r ∈ rs, h.minTs ≤ r.minTs ∧ r.maxTs ≤ h.maxTs := by
+  cases rs with
+  | nil => simp [chunkHull] at hh
+  | cons r0 rest =>
+    simp only [chunkHull, Option.some.injEq] at hh
+    subst hh
+    obtain ⟨a1, a2, a3⟩ := foldl_hull_covers rest r0
+    intro r hr
+    rcases List.mem_cons.mp hr with rfl | hr
+    · exact ⟨a1, a2⟩
+    · exact a3 r hr
+
+end Logrange.Truncate
